@@ -522,6 +522,35 @@ def chunk_slice(ctx, rule="R-CHUNK-SLICE"):
                     ctx.holds(rule, inst)
     if not ok:
         ctx.unknown(rule, "from_bytes call not found in %s" % f.qual)
+    # shortcuts: a path that returns without entering the conversion loop hands out the bytes themselves - the unsigned reading of
+    # 1-byte objects; it is the requested conversion only where the path condition says object size 1 AND unsigned
+    for r in runs(ctx, f, unroll=1):
+        if r.term != "return" or any(rec.ev.kind == "for" for rec in r.recs):
+            continue
+        ret = [e for _, e in r.effects() if e.kind == "ret"]
+        if not ret:
+            continue
+        v = ret[-1].value
+        if any(isinstance(x, tuple) and x == ("attr", ("glob", "int"), "from_bytes") for x in walk(v)):
+            continue            # the conversion itself, spelt as a comprehension
+        inst = "_bytes_to_values: a shortcut that returns the bytes themselves is taken only for unsigned 1-byte objects"
+        plain = v == raw or (v[0] == "call" and v[1] in (("glob", "list"), ("glob", "bytearray"), ("glob", "bytes")) and v[2] == (raw,))
+        gl = lits(r.guards())
+        if not plain:
+            if v == ("list", ()) and any(p and g2[0] == "cmp" and g2[1] == "==" and lensym(raw) in (g2[2], g2[3]) for g2, p in gl):
+                continue
+            ctx.unknown(rule, "%s: shortcut returns %s" % (inst, pretty(v)[:40]))
+            continue
+        one = any(p and g2 == mk_cmp("==", k, ("c", 1)) for g2, p in gl)
+        uns = any((g2 == field("signed") and not p) or (g2 == mk_cmp("==", field("signed"), ("c", False)) and p) or
+                  (g2 == mk_cmp("==", field("signed"), ("c", True)) and not p) for g2, p in gl)
+        if one and uns:
+            ctx.holds(rule, inst)
+        else:
+            ctx.violated(rule, f, inst, "the bytes are returned as they are on a path that %s: %s" % (
+                "does not test the signedness" if one else "is not limited to object size 1",
+                "a signed read of 1-byte objects returns 128..255 instead of -128..-1" if one else "multi-byte objects are not assembled"),
+                ret[-1].node)
     g = P.func(Q, "_values_to_bytes")
     ok = False
     for r in runs(ctx, g, unroll=1):
@@ -793,6 +822,49 @@ def err_xlate(ctx, rule="R-ERR-XLATE"):
             ctx.holds(rule, inst)
         else:
             ctx.violated(rule, f, inst, "error indicator is %s" % pretty(errs[0]), r.recs[-1].ev.node)
+    # the refusal / busy answer the server itself generates is one the client turns into an exception: its EDCP extension byte is
+    # 6 or 7 (the values the client's test accepts) whatever happened before
+    pf = P.func(S, "parse_dm14")
+    serr = enumv(ctx, "ResponseState", "SEND_ERROR")
+    n2 = 0
+    for r in runs(ctx, pf):
+        for i, e in r.effects():
+            if not (e.kind == "call" and mname(e.value) == "_send_dm15"):
+                continue
+            a, kw = e.value[2], dict(e.value[3])
+            stt = a[3] if len(a) > 3 else kw.get("state")
+            if stt != serr:
+                continue
+            ed = a[8] if len(a) > 8 else kw.get("edcp")
+            n2 += 1
+            inst = "server refusal / busy answer carries an error indicator the client reports (EDCP extension 6 or 7)"
+            if ed is None:
+                ctx.violated(rule, pf, inst, "no EDCP extension is passed: the frame carries the default", e.node)
+            elif is_const(ed):
+                if ed[1] in (6, 7):
+                    ctx.holds(rule, inst)
+                else:
+                    ctx.violated(rule, pf, inst, "EDCP extension is the constant %r: the client does not raise for it" % (ed[1],), e.node)
+            elif ed[0] == "attr" and ed[1] == SELF:
+                others = []
+                for m in P.cls(S).methods.values():
+                    for x in ast.walk(m.node):
+                        if isinstance(x, ast.Assign):
+                            for t in x.targets:
+                                if isinstance(t, ast.Attribute) and isinstance(t.value, ast.Name) and t.value.id == "self" and t.attr == ed[2]:
+                                    if not (isinstance(x.value, ast.Constant) and x.value.value in (6, 7)):
+                                        others.append((m.name, x))
+                if others:
+                    ctx.violated(rule, pf, inst, "the EDCP extension byte is taken from self.%s, which %s sets to %s (line %d): after an operation "
+                                 "that stored another value there (the default of respond() is 0xFF) the refusal goes out without error indicator and "
+                                 "the client returns as if the operation had succeeded" % (
+                                     ed[2], others[0][0], ast.unparse(others[0][1].value)[:30], others[0][1].lineno), e.node)
+                else:
+                    ctx.holds(rule, inst)
+            else:
+                ctx.unknown(rule, "%s: EDCP extension %s not decided" % (inst, pretty(ed)[:40]))
+    if n2 == 0:
+        ctx.unknown(rule, "server refusal answer not found in parse_dm14")
 
 
 def timeout_raise(ctx, rule="R-TIMEOUT-RAISE"):
@@ -1213,7 +1285,20 @@ def queue_typestate(ctx, rule="R-QUEUE-TYPESTATE"):
         for i, e in r.effects():
             if e.kind == "call" and e.value[1] == ("attr", field("data_queue"), "get"):
                 n += 1
-                if G.implies(G.conj(r.guards(i)), st_w)[0]:
+                # ... or under the result of a helper that returns true only when it has started a write (the state itself may already
+                # have moved on when the requester's DM16 was processed before the helper returned)
+                via = False
+                for g, p in lits(r.guards(i)):
+                    if p and g[0] == "call" and g[1][0] == "attr" and g[1][1] == SELF and not g[2]:
+                        h = P.cls(S).methods.get(g[1][2])
+                        if h is None:
+                            continue
+                        rets = [(hr, e2.value) for hr in runs(ctx, h) for _, e2 in hr.effects() if e2.kind == "ret"]
+                        if rets and all(v in (("c", False), ("c", None)) or G.implies(mk_bool("and", [G.conj(hr.guards()), v]), cmd_w)[0] for hr, v in rets):
+                            via = True
+                if via:
+                    ctx.holds(rule, "respond() takes written data from the queue only in WAIT_FOR_DM16", "decided by a helper that returns true only for a started write")
+                elif G.implies(G.conj(r.guards(i)), st_w)[0]:
                     ctx.holds(rule, "respond() takes written data from the queue only in WAIT_FOR_DM16")
                 else:
                     ctx.violated(rule, rp, "respond() consumes only in WAIT_FOR_DM16", "the data queue is read outside the write transaction", e.node)
@@ -1435,3 +1520,196 @@ def txn_fresh(ctx, rule="R-TXN-FRESH"):
                 ctx.holds(rule, inst)
     if n_inst == 0:
         ctx.unknown(rule, "no caller of the converters found in %s" % Q)
+
+
+def _handler_reads(ctx, cls, handlers):
+    """fields of self that the reply handlers (and the same-class methods they call) read"""
+    P = ctx.prog
+    c = P.cls(cls)
+    seen, todo, out = set(), list(handlers), set()
+    while todo:
+        mn = todo.pop()
+        if mn in seen or mn not in c.methods:
+            continue
+        seen.add(mn)
+        for n in ast.walk(c.methods[mn].node):
+            if isinstance(n, ast.Attribute) and isinstance(n.value, ast.Name) and n.value.id == "self":
+                if n.attr in c.methods:
+                    todo.append(n.attr)
+                elif isinstance(n.ctx, ast.Load):
+                    out.add(n.attr)
+    return out
+
+
+def settle_first(ctx, rule="R-SETTLE-FIRST"):
+    """client and server have stored everything the handler of the expected reply reads BEFORE the frame that provokes the reply is handed
+    to the bus: after such a send no path stores a field that handler reads.  (The reply is processed by the receive thread - or inside the
+    sending call - and may run before the sender continues: a field stored afterwards is still the OLD value when the reply is handled,
+    and the late store overwrites what the handler has written.)"""
+    P = ctx.prog
+    wfk = enumv(ctx, "ResponseState", "WAIT_FOR_KEY")
+    soc = enumv(ctx, "ResponseState", "SEND_OPERATION_COMPLETE")
+    sp = enumv(ctx, "ResponseState", "SEND_PROCEED")
+    serr = enumv(ctx, "ResponseState", "SEND_ERROR")
+    wr = ("c", P.resolve_chain(["Command", "WRITE", "value"], None))
+    done_c = P.resolve_chain(["Command", "OPERATION_COMPLETED"], None)
+
+    def resolve(v, gl):
+        if is_const(v):
+            return v
+        for g, p in gl:
+            if p and g[0] == "cmp" and g[1] == "==" and v in (g[2], g[3]):
+                o = g[3] if g[2] == v else g[2]
+                if is_const(o):
+                    return o
+        return None
+
+    def server_invites(fn, r, e, cur):
+        """True / False / None (not decided) : does this send provoke a frame of the requester"""
+        name = mname(e.value)
+        gl = lits(r.guards())
+        if name == "_send_dm15":
+            a = e.value[2]
+            kw = dict(e.value[3])
+            st = a[3] if len(a) > 3 else kw.get("state")
+            if st is None:
+                return None
+            st = resolve(st, gl)
+            if st is None:
+                return None
+            if st in (wfk, soc):
+                return True
+            if st == sp:
+                cmd = resolve(cur.get("command", field("command")), gl)
+                if cmd == wr:
+                    return True
+                return False if cmd is not None else None
+            return False
+        if name == "send_pgn" and fn.name == "_send_dm15":
+            st = resolve(("p", "state"), gl)
+            if st in (wfk, soc):
+                return True
+            return False if st == serr else None
+        return None
+
+    def client_invites(fn, r, e, cur):
+        name = mname(e.value)
+        if name == "_send_dm16":
+            return True
+        if name == "_send_dm14":
+            cmd = cur.get("command", field("command"))
+            if is_const(cmd) and cmd[1] == done_c:
+                return False        # the closing DM14 is not answered
+            return True
+        if name == "send_pgn" and fn.name in ("_send_dm14", "_send_dm16"):
+            return None
+        return None
+    n = 0
+    for cls, handlers, invites in ((S, ("parse_dm14", "_parse_dm16"), server_invites), (Q, ("_parse_dm15", "_parse_dm16"), client_invites)):
+        reads = _handler_reads(ctx, cls, handlers)
+        if cls == S:
+            # the facade's DM14 listener runs in the same receive path and reads the server's fields directly (seed, key, state ...)
+            for m in P.cls(M).methods.values():
+                for x in ast.walk(m.node):
+                    if isinstance(x, ast.Attribute) and isinstance(x.ctx, ast.Load) and isinstance(x.value, ast.Attribute) and \
+                            x.value.attr == "server" and isinstance(x.value.value, ast.Name) and x.value.value.id == "self":
+                        reads.add(x.attr)
+            reads -= set(P.cls(S).methods)
+        for fn in sorted(P.cls(cls).methods.values(), key=lambda f: f.node.lineno):
+            if fn.name == "__init__" or fn.kind != "method":
+                continue
+            try:
+                rs = runs(ctx, fn)
+            except AnalysisError:
+                continue
+            bad = None
+            has = False
+            for r in rs:
+                if r.term in ("raise", "exc"):
+                    continue
+                cur = {}
+                pending = None
+                for i, e in r.effects():
+                    if e.kind in ("store", "aug") and e.target[0] == "attr" and e.target[1] == SELF:
+                        if pending is not None and e.target[2] in reads and bad is None:
+                            bad = (pending, e)
+                        if e.kind == "store":
+                            cur[e.target[2]] = e.value
+                    elif e.kind == "call" and mname(e.value) in ("_send_dm14", "_send_dm15", "_send_dm16", "send_pgn"):
+                        v = invites(fn, r, e, cur)
+                        if v:
+                            has = True
+                            pending = e
+            if not has:
+                continue
+            n += 1
+            inst = "%s.%s: nothing the reply handler reads is stored after the frame that provokes the reply" % (cls, fn.name)
+            if bad is None:
+                ctx.holds(rule, inst)
+            else:
+                snd, st = bad
+                ctx.violated(rule, fn, inst, "self.%s is stored (line %d) after %s (line %d) has handed the frame to the bus; the handler of the "
+                             "expected reply reads self.%s and may run first - in the receive thread while this thread is still inside or just "
+                             "behind the sending call: it sees the old value, and this store then overwrites what the handler did" % (
+                                 st.target[2], st.line, mname(snd.value), snd.line, st.target[2]), st.node)
+    if n < 4:
+        ctx.unknown(rule, "reply-provoking sends not found (%d)" % n)
+
+
+def eom_complete(ctx, rule="R-EOM-COMPLETE"):
+    """server, multi-packet read: the end-of-message acknowledge of the DM16 transfer completes the transaction (operation-complete DM15)
+    for EVERY legal size.  A path of the DM16 / acknowledge handler that returns without completing is evaluated over all legal
+    acknowledges - size 1 + n in two bytes, ceil((1 + n) / 7) packets, n = 8..255 data bytes: none may select it."""
+    from .codec import eval_pred
+    P = ctx.prog
+    f = P.func(S, "_parse_dm16")
+    soc = enumv(ctx, "ResponseState", "SEND_OPERATION_COMPLETE")
+    data = ("p", "data")
+    nsym = lensym(field("data"))
+    wr = ("c", P.resolve_chain(["Command", "WRITE", "value"], None))
+    done = drop = 0
+    bad = None
+    undec = None
+    for r in runs(ctx, f):
+        if r.term in ("raise", "exc"):
+            continue
+        gl = lits(r.guards())
+        if any(p and g == mk_cmp("==", field("command"), wr) for g, p in gl):
+            continue            # the DM16 of a write
+        completes = any(e.kind == "call" and mname(e.value) == "_send_dm15" for _, e in r.effects()) or any(
+            e.kind == "store" and e.target == field("state") and e.value == soc for _, e in r.effects())
+        if completes:
+            done += 1
+            continue
+        conds = [(g, p) for g, p in r.guards() if contains(g, data) or contains(g, nsym)]
+        if not conds:
+            continue            # admission test (PGN / requester address)
+        drop += 1
+        hit = None
+        try:
+            for n in range(8, 256):
+                size = n + 1
+                frame = [19, size & 0xFF, size >> 8, -(-size // 7), 0xFF, 0x00, 0xD7, 0x00]
+                env = {("sub", data, ("c", i)): frame[i] for i in range(8)}
+                env[lensym(data)] = 8
+                env[nsym] = n
+                if all(bool(eval_pred(g, env)) == p for g, p in conds):
+                    hit = n
+                    break
+        except (AnalysisError, KeyError, TypeError) as ex:
+            undec = "%s" % ex
+            continue
+        if hit is not None and bad is None:
+            bad = (r, hit, conds)
+    inst = "DM14Server._parse_dm16: every legal end-of-message acknowledge (DM16 of 8..255 data bytes) completes the read"
+    if bad is not None:
+        r, n, conds = bad
+        ctx.violated(rule, f, inst, "the handler returns without the operation-complete DM15 when %s; the acknowledge of a DM16 with %d data bytes "
+                     "(message size %d = 0x%04X, low byte %d) satisfies that: the read of %d bytes never completes, the client times out and the server "
+                     "stays busy" % (" and ".join(pretty(g if p else mk_not(g))[:60] for g, p in conds), n, n + 1, n + 1, (n + 1) & 0xFF, n), r.recs[-1].ev.node)
+    elif undec:
+        ctx.unknown(rule, "%s: a dropping condition is not evaluable (%s)" % (inst, undec[:80]))
+    elif done:
+        ctx.holds(rule, inst, "%d completing path(s), %d dropping path(s) none of which a legal acknowledge selects" % (done, drop))
+    else:
+        ctx.unknown(rule, "completion path not found in %s" % f.qual)
